@@ -12,7 +12,7 @@ def on_disagreement(c, binary, ln, il, ml, d):
     cont, cmpn, ops = f[0], f[1], f[3:]
     i, fld, ri, rm = d
     opn = rb.OPNAME.get((cont, ops[i].split(",")[0]), "?") if i < len(ops) else "?"
-    sig = "C01:%s:%s:%s" % (cont, opn, rb.FIELD[fld] if not rb.is_abort(ri[0]) else "panic-or-hang")
+    sig = "C01:%s:%s" % (cont, opn if not rb.is_abort(ri[0]) else "panic-or-hang")   # coarse: container + operation
     if any(len(v) > 2 and v[2] == sig for v in c.violations) or len(c.violations) >= 6:
         c.cov["disagreeing_histories"] = c.cov.get("disagreeing_histories", 0) + 1
         return
